@@ -323,3 +323,138 @@ Example C20_example_deep_domain :
   forallb iri_dom (scan_order (scan_lists KActivity (match ex20 with IObj _ _ fs => fs | _ => [] end))) = true /\
   length (scan_order (scan_lists KActivity (match ex20 with IObj _ _ fs => fs | _ => [] end))) = 2%nat.
 Proof. split; [vm_compute; reflexivity|]. split; vm_compute; reflexivity. Qed.
+
+(* ==================================================================================================================
+   ---- the primitive predicates and accessors under the translator (b41) ----
+   IsNil / NotEmpty (the first clause of this property), the type predicates IsIRI / IsIRIs / IsLink / IsObject /
+   IsItemCollection, the interface methods GetLink / GetID / GetType / IsObject / IsLink / IsCollection of the 17 item
+   types and ItemCollection.Normalize were hand-written Gallina (Model/Pred.v and its users), tied to the code by
+   correspondence only.  Gen/PredT.v (translator/predt.go) now holds their BODIES, statement by statement;
+   Model/PredTab.v interprets a table on the model's item values (type assertions and switches on the dynamic Go type
+   - value / pointer form, typed nil pointers -, nil comparisons by the static type class of the operand, dynamic
+   dispatch of interface methods over the same table with Go's two panics, closures handed to On<T>).  For EVERY
+   table satisfying the decidable condition pred_table_ok and for ALL items the interpreter is the hand-written
+   function (Proofs/PredTabP.v, PredNeP.v); the condition is evaluated on the table regenerated on this run.
+   Still hand-written: what On<T>(x, fn) hands to fn (on_view; its rows for nil-like items and for struct values are
+   compared with Gen/Conv.v below; that a view shares the property list of the original is C08's subject),
+   strings.EqualFold, time.Time.IsZero, reflect's Kind / IsNil, ActivityVocabularyTypes.Contains. *)
+From AP.Model Require Import PredTab PredGen.
+From AP.Proofs Require Import PredTabP PredNeP.
+Require AP.Model.JsonDec AP.Model.Coll AP.Gen.Layout.
+
+(* diagnosis first: which function or method differs, and at which statement *)
+Theorem C20_pred_table_first_bad : first_bad_pred gen_pred_fns = None.
+Proof. vm_compute. reflexivity. Qed.
+Theorem C20_pred_table : pred_table_ok gen_pred_fns = true.
+Proof. vm_compute. reflexivity. Qed.
+
+(* IsNil, for every table satisfying the condition, for all items: what the body does per kind and pointer form -
+   the nil interface; IRIs by their text (empty or "-", case folded); the four list types by v == nil on the value
+   the assertion yields (a pointer to a nil list is not nil); structs through OnObject / OnLink and o == nil *)
+Theorem C20_is_nil_table_tie : forall tbl, pred_table_ok tbl = true ->
+  forall i, sem_pred tbl (B "IsNil") i = Ok (is_nil i).
+Proof. exact is_nil_tie. Qed.
+Theorem C20_is_nil_gen : forall i, is_nil_gen i = Ok (is_nil i).
+Proof. exact (is_nil_tie gen_pred_fns C20_pred_table). Qed.
+(* the first clause of the property on the code as it is: IsNil as the source says it now answers true on the nil
+   item and on a nil pointer to each of the 14 struct types *)
+Theorem C20_is_nil_gen_nils : forall n, In n nils -> is_nil_gen n = Ok true.
+Proof. intros n Hn. rewrite C20_is_nil_gen. rewrite (C20_is_nil n Hn). reflexivity. Qed.
+
+(* NotEmpty: false on everything IsNil holds of ... *)
+Theorem C20_not_empty_nil_table_tie : forall tbl, pred_table_ok tbl = true ->
+  forall i, is_nil i = true -> sem_pred tbl (B "NotEmpty") i = Ok false.
+Proof. exact not_empty_nil_tie. Qed.
+Theorem C20_not_empty_gen_nils : forall n, In n nils -> not_empty_gen n = Ok false.
+Proof. intros n Hn. apply (not_empty_nil_tie gen_pred_fns C20_pred_table). exact (C20_is_nil n Hn). Qed.
+
+(* ... notEmptyObject = the loader's obj_not_empty on every property list whose entries hold values of the Go type of
+   their field (ne_typed: decidable; the type tags come from go/types), false on a nil pointer ... *)
+Theorem C20_not_empty_object_table_tie : forall tbl, pred_table_ok tbl = true ->
+  (forall k fs, ne_typed fs = true -> sem_pred tbl (B "notEmptyObject") (IObj true k fs) = Ok (JsonDec.obj_not_empty fs)) /\
+  (forall k, sem_pred tbl (B "notEmptyObject") (ITNil k) = Ok false).
+Proof. intros tbl H. split; [exact (ne_object_tie tbl H)|exact (ne_object_nil_tie tbl H)]. Qed.
+
+(* ... and NotEmpty itself = the hand-written not_empty of Model/JsonDec.v (activity / actor / link / object branches,
+   notEmptyActivity > notEmptyInstransitiveActivity > notEmptyObject, notEmptyActor, notEmptyLink, all from the
+   table) on IRIs and on structs.
+   PARTIAL.  Full statement: for all items i, sem_pred tbl "NotEmpty" i = Ok (not_empty_m i).  Missing:
+   (1) lists (ItemCollection, IRIs): OnObject handed a list walks its members, which the interpreter does not model
+       (PwOutside) - and the hand-written not_empty answers true there, written as it was for values fresh from the
+       loader; (2) structs outside ne_dom: a type name in other letter case than the vocabulary's (the Go lists fold
+       case, the hand-written model compares exactly), a collection struct whose type name is empty or an activity /
+       actor name.  The loader applies NotEmpty to structs whose kind its own switch chose from the exact type name,
+       i.e. inside ne_dom. *)
+Theorem C20_not_empty_table_tie_partial : forall tbl, pred_table_ok tbl = true ->
+  (forall p s, sem_pred tbl (B "NotEmpty") (IIri p s) = Ok (not_empty_m (IIri p s))) /\
+  (forall p k fs, ne_typed fs = true -> ne_dom k (get_str F_Type fs) = true ->
+     sem_pred tbl (B "NotEmpty") (IObj p k fs) = Ok (not_empty_m (IObj p k fs))).
+Proof. intros tbl H. split; [exact (not_empty_iri_tie tbl H)|exact (not_empty_obj_tie tbl H)]. Qed.
+
+(* the type predicates and the interface methods (with Go's panics: nil interface, value method through a nil
+   pointer), for every table satisfying the condition, for all items *)
+Theorem C20_type_predicates_table_tie : forall tbl, pred_table_ok tbl = true -> forall i,
+  sem_pred tbl (B "IsIRI") i = Ok (is_iri i) /\ sem_pred tbl (B "IsIRIs") i = Ok (is_iris i) /\
+  sem_pred tbl (B "IsLink") i = Ok (is_link i) /\ sem_pred tbl (B "IsObject") i = Ok (is_object i) /\
+  sem_pred tbl (B "IsItemCollection") i = Ok (is_item_collection i).
+Proof.
+  intros tbl H i. repeat split;
+    [apply is_iri_tie|apply is_iris_tie|apply is_link_tie|apply is_object_tie|apply is_item_collection_tie]; exact H.
+Qed.
+Theorem C20_methods_table_tie : forall tbl, pred_table_ok tbl = true -> forall i,
+  as_bytes (sem_dyn tbl m_GetLink i) = get_link i /\ as_bytes (sem_dyn tbl m_GetID i) = get_link i /\
+  as_bytes (sem_dyn tbl m_GetType i) = get_type i /\
+  as_bool (sem_dyn tbl m_IsObject i) = Recip.meth_is_object i /\ as_bool (sem_dyn tbl m_IsLink i) = Recip.meth_is_link i /\
+  as_bool (sem_dyn tbl m_IsCollection i) = is_collection_call i.
+Proof.
+  intros tbl H i. repeat split;
+    [apply sem_get_link_tie|apply sem_get_id_tie|apply sem_get_type_tie|apply sem_meth_is_object_tie
+    |apply sem_meth_is_link_tie|apply sem_is_collection_tie]; exact H.
+Qed.
+(* ItemCollection.Normalize, on a list value or through a pointer: Flatten's normalize, Coll's ic_normalize *)
+Theorem C20_normalize_table_tie : forall tbl, pred_table_ok tbl = true ->
+  (forall p lo, as_item (sem_static tbl (B "ItemCollection.Normalize") (VI (IItems p lo))) = Ok (Flatten.normalize lo)) /\
+  (forall p l, as_item (sem_static tbl (B "ItemCollection.Normalize") (VI (IItems p (Some l)))) = Ok (Coll.ic_normalize l)).
+Proof. intros tbl H. split; [exact (sem_normalize_tie tbl H)|exact (sem_ic_normalize_tie tbl H)]. Qed.
+
+(* the hand-written On<X> rows for nil-like items against the conversion tables regenerated on this run: fn is
+   called with a nil pointer exactly where Model/NilMatrix.v computes it from Gen/Conv.v *)
+Theorem C20_on_view_nil : on_view_nil_ok conv_tables = true.
+Proof. vm_compute. reflexivity. Qed.
+(* ... and for struct values of the 14 kinds in both forms: a pointer of the target kind where To<X> of Gen/Conv.v
+   yields a view (over the layouts of Gen/Layout.v), nothing where it yields an error *)
+Theorem C20_on_view_struct : on_view_struct_ok conv_tables AP.Gen.Layout.layout_of AP.Gen.Layout.sizeof_kind = true.
+Proof. vm_compute. reflexivity. Qed.
+
+(* non-vacuity: the hypotheses hold of ordinary values (a Person, a Note, a Create with both embedded, a Mention
+   link as a struct value, an OrderedCollection, a Tombstone) and the generated table evaluates on them *)
+Example C20_pred_hypotheses :
+  forallb (fun i => ne_typed (pg_fields i) && match i with IObj _ k fs => ne_dom k (get_str F_Type fs) | _ => false end)
+          [pg_actor; pg_note; pg_create; pg_mention; pg_outbox; pg_tombstone; pg_summary_only] = true /\
+  map not_empty_gen [pg_actor; pg_create; pg_mention; pg_outbox; IObj true KObject []; IIri false (B "-"); ITNil KPlace]
+    = [Ok true; Ok true; Ok true; Ok true; Ok false; Ok false; Ok false] /\
+  map is_nil_gen [INil; ITNil KLink; IIri true (B "-"); IItems false None; IItems true None; IObj false KObject []]
+    = [Ok true; Ok true; Ok true; Ok true; Ok false; Ok false] /\
+  get_link_gen pg_actor = Ok (B "https://example.com/actors/alice") /\ get_type_gen pg_mention = Ok (B "Mention") /\
+  get_link_gen (ITNil KActor) = Panic ValueMethodOnNilPtr /\ get_type_gen INil = Panic NilDeref.
+Proof. repeat split; vm_compute; reflexivity. Qed.
+
+(* what the condition is for: tables of sources that (a) test the pointer OnObject hands to IsNil's closure as an
+   interface (`any(o) == nil`: never true), (b) lost the `o.Summary != nil` clause of notEmptyObject (compare seeded
+   C05-2), (c) answer Actor.GetLink with the media type, (d) lost Tombstone in IsObject's case list - each fails the
+   condition, the diagnosis names function and statement (or the method), and the MEANING of the changed table gives
+   the wrong answer *)
+Example C20_changed_pred_rejected :
+  pred_table_ok fns_nil_iface_test = false /\
+  diag_where (first_bad_pred fns_nil_iface_test) = Some (B "IsNil", Some 2%nat) /\
+  sem_pred fns_nil_iface_test (B "IsNil") (ITNil KActor) = Ok false /\
+  pred_table_ok fns_object_without_summary = false /\
+  diag_where (first_bad_pred fns_object_without_summary) = Some (B "notEmptyObject", Some 1%nat) /\
+  sem_pred fns_object_without_summary (B "NotEmpty") pg_summary_only = Ok false /\ not_empty_gen pg_summary_only = Ok true /\
+  pred_table_ok fns_actor_link_is_mediatype = false /\
+  diag_where (first_bad_pred fns_actor_link_is_mediatype) = Some (B "Actor.GetLink", None) /\
+  as_bytes (sem_dyn fns_actor_link_is_mediatype m_GetLink pg_actor) = Ok (B "text/plain") /\
+  pred_table_ok fns_object_without_tombstone = false /\
+  diag_where (first_bad_pred fns_object_without_tombstone) = Some (B "IsObject", Some 0%nat) /\
+  sem_pred fns_object_without_tombstone (B "IsObject") pg_tombstone = Ok false.
+Proof. repeat split; vm_compute; reflexivity. Qed.
